@@ -531,6 +531,18 @@ def check_binding(rep, ix):
     rep.ob('R-C20-BIND', f'{BF}:_lis', 'the LIS detector indexes with the best settings reader', "File.file_read_with_best_physical_record_pad_settings(fobj,'',pr_limit=100)" in calls and 'FileIndexer.FileIndex(lis_file)' in calls, found=str(calls[:4]), node=l, module=ix.module(BF))
 
 
+def check_dat_reads_all(rep, ix):
+    """the DAT detector hands the whole text to the trial parse (a fixed-size prefix cuts wide files in the middle of the
+    declarations or the first row, and they are then not recognised) and the trial parse checks the row length exactly"""
+    m = ix.module(BF)
+    f = ix.get_func(BF, '_dat')
+    reads = [c for c in common.calls_in(f) if isinstance(c.func, ast.Attribute) and c.func.attr == 'read' and _n(c.func.value) == f.args.args[0].arg]
+    ok = len(reads) >= 1 and all(not c.args and not c.keywords for c in reads)
+    rep.ob('R-C20-DETECT', f'{BF}:_dat', 'the DAT detector reads the whole file for the trial parse', ok, found='; '.join(_n(c) for c in reads), required=f'{f.args.args[0].arg}.read()', node=f, module=m)
+    from . import C14
+    C14.check_row_length(rep, ix)
+
+
 def check_dat_table(rep, ix):
     # the DAT detector parses the text with DAT_parser: its line-sanitising table decides whether a valid (tab-separated) DAT
     # file is recognised; same rule as C14
@@ -544,6 +556,11 @@ def run(rep, ix, tier):
     check_order(rep, ix)
     check_rewind(rep, ix)
     check_escape(rep, ix)
+    # a padded LIS file is recognised only if the padding after each physical record is measured correctly: rule of C05
+    from . import C05
+    C05.check_sizes(rep, ix)
+    rep.floor('R-C05-LOOP', 2)
+    check_dat_reads_all(rep, ix)
     check_invariant(rep, ix)
     # the index of one file is built from nothing: state handed out by a helper and filled in by the constructor is per call
     common.check_fresh_returns(rep, 'R-C20-FRESH', ix, 'TotalDepth.LIS.core.FileIndexer')
